@@ -1,8 +1,10 @@
 package simpg
 
 import (
+	"encoding/binary"
 	"fmt"
 	"math/big"
+	"sort"
 	"strings"
 )
 
@@ -75,6 +77,60 @@ func (s *Server) Dump(table string) []Row {
 	s.mu.Lock()
 	defer s.mu.Unlock()
 	return s.dumpLocked(nil, table)
+}
+
+// Committed is an alias of Dump.
+func (s *Server) Committed(table string) []Row { return s.Dump(table) }
+
+// hashIgnoredColumns are excluded from StateHash: their values depend on wall-clock / logical time only.
+var hashIgnoredColumns = map[string]bool{"insert_at": true, "latency": true}
+
+// StateHash is a 64-bit FNV-1a hash of the committed, user-visible contents of every table: the qualified table
+// name and, per row, every (column name, value) pair. Row ids, insertion order, column order, indexes, views and
+// the columns named insert_at and latency do not influence it; uncommitted work of open transactions does not
+// either. Tables are visited in sorted order, the rows of a table in the order of their canonical encoding, so
+// two servers holding the same multiset of rows hash equal however they got there.
+func (s *Server) StateHash() uint64 {
+	s.mu.Lock()
+	defer s.mu.Unlock()
+	const offset, prime = 14695981039346656037, 1099511628211
+	h := uint64(offset)
+	add := func(b []byte) {
+		for _, c := range b {
+			h = (h ^ uint64(c)) * prime
+		}
+	}
+	for _, k := range s.sortedTableKeys() {
+		t := s.tables[k]
+		add(appendKey(nil, k))
+		order := make([]int, 0, len(t.cols))
+		for i, c := range t.cols {
+			if !hashIgnoredColumns[c.name] {
+				order = append(order, i)
+			}
+		}
+		sort.Slice(order, func(a, b int) bool { return t.cols[order[a]].name < t.cols[order[b]].name })
+		encs := make([]string, len(t.rows))
+		for i, r := range t.rows {
+			var kb []byte
+			for _, ci := range order {
+				kb = appendKey(kb, t.cols[ci].name)
+				var v any
+				if ci < len(r.vals) {
+					v = r.vals[ci]
+				}
+				kb = appendKey(kb, v)
+			}
+			encs[i] = string(kb)
+		}
+		sort.Strings(encs)
+		add(binary.BigEndian.AppendUint32(nil, uint32(len(encs))))
+		for _, e := range encs {
+			add(binary.BigEndian.AppendUint32(nil, uint32(len(e))))
+			add([]byte(e))
+		}
+	}
+	return h
 }
 
 // DumpTx returns the rows as the open transaction of connection conn sees them (committed rows if it has none).
